@@ -273,9 +273,19 @@ impl World {
             .collect()
     }
 
+    /// the weights as they are handed to the code under test: a feature with weight zero and a feature that is not
+    /// mentioned are the same configuration, so every other world (by its edge count) leaves its zero weights out
+    pub fn weights_as_configured(&self) -> Vec<(String, f64)> {
+        if self.net.ne() % 2 == 0 && self.cost.weights.iter().any(|(_, w)| *w != 0.0) {
+            self.cost.weights.iter().filter(|(_, w)| *w != 0.0).cloned().collect()
+        } else {
+            self.cost.weights.clone()
+        }
+    }
+
     pub fn cost_model(&self, sm: Arc<StateModel>) -> Result<CostModel, String> {
         CostModel::new(
-            Arc::new(self.cost.weights.iter().cloned().collect()),
+            Arc::new(self.weights_as_configured().into_iter().collect()),
             Arc::new(self.cost.vehicle_rates.iter().cloned().collect()),
             Arc::new(self.network_rates()),
             self.cost.agg,
